@@ -108,11 +108,12 @@ class SNum(SReal):
 import numbers  # noqa: E402
 numbers.Number.register(SNum)
 
-_PH = re.compile(rb"\x00(\d+)\x00")
+_PH = re.compile(rb"(\x00\d+\x00|\x01\d+\x01)")
 
 
 def text_equal(a, b):
-    """z3 Bool / bool: two byte strings with number placeholders are equal"""
+    """z3 Bool / bool: two byte strings with number / digest placeholders
+    are equal"""
     ta, tb = _PH.split(a), _PH.split(b)
     if len(ta) != len(tb):
         return False
@@ -122,13 +123,30 @@ def text_equal(a, b):
             if x != y:
                 return False
         else:
-            conds.append(SNum.TABLE[int(x)].e == SNum.TABLE[int(y)].e)
+            if x[:1] != y[:1]:
+                return False
+            ix, iy = int(x[1:-1]), int(y[1:-1])
+            if x[:1] == b"\x00":
+                conds.append(SNum.TABLE[ix].e == SNum.TABLE[iy].e)
+            else:
+                r = text_equal(SymHash.TABLE[ix], SymHash.TABLE[iy])
+                if r is False:
+                    return False
+                if r is not True:
+                    conds.append(r)
     return z3.And(conds) if conds else True
 
 
-class SymHash:
-    def __init__(self, data):
-        self.data = data
+class SymHash(str):
+    """hex digest of the injective md5 stub: a str (so that it can be hashed
+    again, formatted, compared) that remembers the digested text"""
+    TABLE = []
+
+    def __new__(cls, data):
+        SymHash.TABLE.append(data)
+        obj = str.__new__(cls, "\x01%d\x01" % (len(SymHash.TABLE) - 1))
+        obj.data = data
+        return obj
 
     def __eq__(self, o):
         if not isinstance(o, SymHash):
@@ -140,7 +158,8 @@ class SymHash:
         r = self.__eq__(o)
         return (not r) if isinstance(r, bool) else ~r
 
-    __hash__ = None
+    def __hash__(self):
+        return 7
 
 
 class MD5:
@@ -308,6 +327,28 @@ class Cfg(dict):
         return c
 
 
+@contextlib.contextmanager
+def plugin(spec):
+    """register a user plug-in feature through the real PlugInFeature API:
+    circ_per_area = circ / area_um (area_um is itself ancillary and depends
+    on [imaging] pixel size, which the plug-in does NOT list)"""
+    if not spec:
+        yield
+        return
+    from dclab.rtdc_dataset.feat_anc_plugin import plugin_feature as pf
+
+    def compute(mm):
+        return {"circ_per_area": mm["circ"] / mm["area_um"]}
+    info = {"method": compute, "feature names": ["circ_per_area"],
+            "features required": ["circ", "area_um"],
+            "description": "verification plug-in", "version": "0.1.0"}
+    inst = pf.PlugInFeature("circ_per_area", info)
+    try:
+        yield
+    finally:
+        pf.remove_plugin_feature(inst)
+
+
 def base_data(feats):
     rs = np.random.RandomState(3)
     d = {}
@@ -360,6 +401,7 @@ STR_ALT = {
 def run_history(eng, p):
     """p: feats, cfg (sec -> key -> 'num' | str), target, edits"""
     SNum.TABLE.clear()
+    SymHash.TABLE.clear()
     cnt = [0]
 
     def fresh_num(tag):
@@ -376,7 +418,7 @@ def run_history(eng, p):
         for k, v in kv.items():
             cfg[sec][k] = fresh_num(k) if v == "num" else v
     feat = p["target"]
-    with patched():
+    with patched(), plugin(p.get("plugin")):
         ds = new_ds(p["feats"], cfg)
         steps = [("read",)] + [tuple(e) for e in p["edits"]] + [("check",)]
         for st in steps:
@@ -388,6 +430,8 @@ def run_history(eng, p):
                     fresh_num(key) if val == "num" else val
             elif st[0] == "del":
                 ds.config.get(st[1], {}).pop(st[2], None)
+            elif st[0] == "readf":
+                try_read(ds, st[1])
             elif st[0] == "check":
                 with quiet():
                     avail = feat in ds
@@ -514,6 +558,24 @@ def cases(tier, seed):
                     out.append(("%s %s" % (feat, ed), dict(
                         feats=feats, cfg=cfg, target=feat,
                         edits=[list(ed)])))
+    # plug-in feature on top of an ancillary feature (chain of caches)
+    pcfg = {"imaging": {"pixel size": "num"}, "setup": {}, "calculation": {}}
+    pfeats = ["circ", "area_cvx"]
+    e_set = ["set", "imaging", "pixel size", "num"]
+    hist = [[], [e_set], [e_set, ["readf", "circ_per_area"], e_set],
+            [["readf", "area_um"], e_set],
+            [["readf", "circ_per_area"], e_set],
+            [e_set, ["readf", "area_um"], e_set],
+            [["del", "imaging", "pixel size"]],
+            [e_set, ["readf", "circ_per_area"], e_set,
+             ["readf", "circ_per_area"], e_set]]
+    for i, h in enumerate(hist):
+        out.append(("plugin chain history %d" % i, dict(
+            feats=pfeats, cfg=pcfg, target="circ_per_area", edits=h,
+            plugin=True)))
+        out.append(("area_um chain history %d" % i, dict(
+            feats=pfeats, cfg=pcfg, target="area_um", edits=h,
+            plugin=True)))
     # crosstalk: every channel subset x coefficient presence
     ct_keys = ["crosstalk fl%d%d" % (i, j) for i in (1, 2, 3)
                for j in (1, 2, 3) if i != j]
@@ -577,7 +639,7 @@ def replay(case, params, v):
 
     feats = p["feats"]
     fails = []
-    with quiet():
+    with quiet(), plugin(p.get("plugin")):
         def make():
             d = base_data(feats)
             if "area_um" in d:
@@ -600,6 +662,11 @@ def replay(case, params, v):
             if ed[0] == "set":
                 ds.config[ed[1]][ed[2]] = num(ed[2]) if ed[3] == "num" \
                     else ed[3]
+            elif ed[0] == "readf":
+                try:
+                    ds[ed[1]]
+                except Exception:
+                    pass
             else:
                 ds.config[ed[1]].pop(ed[2], None)
         avail = feat in ds
@@ -640,7 +707,7 @@ def final_cfg(p):
     for ed in p["edits"]:
         if ed[0] == "set":
             cfg.setdefault(ed[1], {})[ed[2]] = ed[3]
-        else:
+        elif ed[0] == "del":
             cfg.get(ed[1], {}).pop(ed[2], None)
     return cfg
 
@@ -667,7 +734,8 @@ def classify(msg, p, v):
                    "incomplete-matrix"
         return fam + "|availability|" + msg.split("but reading")[1][:60]
     if msg.startswith("stale"):
-        ed = p["edits"][0] if p["edits"] else ["?", "?", "?"]
+        eds = [e for e in p["edits"] if e[0] in ("set", "del")]
+        ed = eds[-1] if eds else ["?", "?", "?"]
         k = ed[2]
         if k.startswith("crosstalk"):
             k = "crosstalk-coefficient-not-in-recipe"
